@@ -439,7 +439,6 @@ def execute_case(case, run_seed, tier, only=None, tag=""):
         r = Runner(case, root, tier)
         status = r.run(only)
         w = r.world
-        nS = 0
         return {
             "digest": digest_of([w.trace, [v["oracle"] for v in r.violations]]),
             "events": w.events,
@@ -490,5 +489,4 @@ def shrink_candidates(obj):
 
 
 def evidence_extra(agg):
-    sizes = agg.extra.get("output_files_per_workload", [])
     return {"subset_enumeration": "singletons + W + seeded pairs/subsets (quick); all subsets when |W|<=7 (thorough)"}
